@@ -197,12 +197,16 @@ reg(Spec(
 sshd("C06")
 
 reg(Spec(
-    "C10", "Props/C10.v", harness="pipeline", race=True, thorough_extra=daemon_extra("C10", 60, 600),
+    "C10", "Props/C10.v", harness="pipeline", race=True,
+    thorough_extra=daemon_extra("C10", 60, 600) + [("jsonenc", {}, ["-n", "700"], False, ["-n", "60"])],
+    extra_targets=["Model/JsonEncCheck.vo"],
     args_quick=["-n", "60"],
     args_thorough=["-n", "1500"],
     args_search=["-n", "400"],
     assumptions=[
-        "A-append: one Write call per event and no interleaving of single writes on the O_APPEND output file (kernel/encoding-json behaviour): observed by recording every Write call, not proved",
+        "A-append, what is left of it: that the kernel does not interleave single write(2) calls on the O_APPEND output file is observed (built daemon, events file read back), not proved",
+        "JSON rendering (Model/JsonEnc.v, stage jsonenc): the text of an event is MODELLED (encoding/json appendString over utf8.DecodeRuneInString, sorted maps, omitempty, trailing newline) and PROVED, for all field contents, to be one line ending in its only newline (C10_json_one_line, C10_json_lines_split), to read back field by field (C10_json_string_roundtrip, C10_json_parse_event) and not to depend on map insertion order; the model is compared byte for byte with the real writer on every run, incl. events written by the real sshd processor and the real correlator; 'one Encode = one Write call' is observed by the recording writer on every event",
+        "JSON rendering, stated not proved: LoggedAt enters the model already formatted (time_text_ok: digits and - : . T Z +; time.Time.MarshalJSON fails outside years 0..9999); Data is the JSON value whose json.Marshal output the RawMessage holds (the encoder's re-scan appendCompact is the identity on such text: observed byte for byte); Extra values are strings, string slices, aucoalesce.Object, string maps, nested maps or nil",
         "the hand-off happens only after the UserLogin was written (wf_run): an assumption of C10_causal over free runs, PROVED for combined runs (C10_combined_run_wf, Model/PipelineSshd.v: records processed sequentially by SshdProc.process, rendez-vous hand-off, Read's loop holding at most one login, any schedule); C10_causal_combined / C10_once_combined carry no such hypothesis",
         "combined runs: a login is abstracted to (record index, forwarded PID, handler clock, credential id non-empty); cleanups may fall between a rendez-vous and its RemoteLogin (more interleavings than the code has)",
         "correlator calls are atomic (C03); the tracker component of a pipeline run is the sequential correlator on the run's own history",
@@ -212,7 +216,8 @@ reg(Spec(
         "stand-alone failure lines going on the sshd pipe (until the events file holds the UserActions the scenario must produce; bounded), GOMAXPROCS >= 2, no pacing; every line of the events file must "
         "be one whole JSON event. That a single write(2) of any size on an O_APPEND regular file is not interleaved with another is the kernel's behaviour, observed",
     ],
-    modelled=["cmd/namedpipe.go wiring (one event writer, unbuffered logins channel)", "order of write and hand-off in processors/sshd", "sessiontracker (shared model)"],
+    modelled=["cmd/namedpipe.go wiring (one event writer, unbuffered logins channel)", "order of write and hand-off in processors/sshd", "sessiontracker (shared model)",
+              "encoding/json (Encoder.Encode, appendString, mapEncoder, structEncoder/omitempty) + unicode/utf8.DecodeRuneInString as used for auditevent.AuditEvent: Model/JsonEnc.v, hand-written, tied byte for byte by harness/jsonenc (Model/JsonEncCheck.v)"],
 ))
 
 reg(Spec(
